@@ -1353,7 +1353,7 @@ func runInterrupted(k *vf.Case) {
 
 func main() {
 	vf.Main("C08", "exploration", func(c *vf.Ctx) {
-		c.Rule = "seeded single-threaded histories of 5-60 cycles on one MeterProvider with a delta-for-everything and a cumulative ManualReader collecting at the same points: all seven instrument kinds x int64/float64 with default aggregations, histograms under a base-2 exponential view and a counter re-aggregated to an explicit histogram; in each cycle a random subset of 2-9 attribute sets is measured (sets appear, disappear, reappear); asynchronous observations are scripted per cycle and replayed by every callback invocation; instrument-level callbacks plus multi-instrument callbacks registered/unregistered between cycles, duplicate observations, observations of instruments not registered with the callback; plus wide histories: 1 600-7 000 distinct attribute sets on a counter and a histogram over 4-7 cycles, 400-900 per cycle, compared set by set; interrupted histories (collection attempts on done contexts, a callback failing on demand). distinct = distinct (cycles class, sets, live callbacks, churn seen) signatures"
+		c.Rule = "seeded single-threaded histories of 5-60 cycles on one MeterProvider with a delta-for-everything and a cumulative ManualReader collecting at the same points: all seven instrument kinds x int64/float64 with default aggregations, histograms under a base-2 exponential view and a counter re-aggregated to an explicit histogram; in each cycle a random subset of 2-9 attribute sets is measured (sets appear, disappear, reappear); asynchronous observations are scripted per cycle and replayed by every callback invocation; instrument-level callbacks plus multi-instrument callbacks registered/unregistered between cycles, duplicate observations, observations of instruments not registered with the callback; plus wide histories: 1 600-7 000 distinct attribute sets on a counter and a histogram over 4-7 cycles, 400-900 per cycle, compared set by set; interrupted histories (collection attempts on done contexts, a callback failing on demand); explicit layouts of 16/4/2/1 buckets with shifting output slots and dormant instruments; concurrent-create family (2-16 goroutines creating one asynchronous instrument); twin-scopes family (same-named observables in meters differing by version/schema URL/attributes). distinct = distinct (cycles class, sets, live callbacks, churn seen) signatures"
 		c.Assume = []string{"several observations of one (instrument, set) in one cycle add up for asynchronous sums; for gauges the last value within a callback, any callback's last value across callbacks", "a delta point's start is compared with the previous collection's time only when that collection reported the stream (otherwise only non-overlap is asserted)", "exponential buckets of the delta reader are merged by exact downscaling before comparison; values are integers (far from irrational bucket boundaries)"}
 		otel.SetErrorHandler(otel.ErrorHandlerFunc(func(error) {}))
 		otel.SetLogger(logr.Discard())
